@@ -873,8 +873,9 @@ def get_unique_seq(onsets, offsets, unique_onset_idxs=None, return_diff=False):
     first_time = np.min(onsets)
 
     # ensure last score time is later than last onset
-    if np.max(onsets) == np.max(offsets):
-        # last note without duration (grace note)
+    if np.max(offsets) - np.max(onsets) <= 1e-6:
+        # last note without duration (grace note); an earlier note that ends
+        # there may do so a rounding error later
         last_time = np.max(onsets) + 1
     else:
         last_time = np.max(offsets)
